@@ -1144,6 +1144,26 @@ def lse(x, axis=None):
     return T.add(c, norm_app("log", [norm_app("sum", [norm_app("exp", [T.sub(x, c)])], kw)]))
 
 
+SCALAR_REDUCTIONS = {"max", "min", "sum", "mean", "var", "std", "len", "prod"}
+
+
+def is_scalar(t) -> bool:
+    """Per-set scalar: constants, full reductions (no axis), len(), and
+    arithmetic / log / exp / sqrt of scalars."""
+    if T.is_poly(t):
+        return all(is_scalar(b) for m, _ in t[1] for b, _e in m)
+    if t[0] == "f":
+        name, args, kw = t[1], t[2], dict(t[3])
+        if name in SCALAR_REDUCTIONS:
+            return "axis" not in kw
+        if name in ("log", "exp", "sqrt", "abs", "float", "int"):
+            return all(is_scalar(a) for a in args)
+        return False
+    if t[0] == "a":
+        return t[1] in ("pi", "inf", "nan", "euler_e")
+    return False
+
+
 def norm_app(cname, args, kwargs=None):
     """Canonical application of a canonical function name (shared by the
     evaluator and the spec language)."""
@@ -1161,6 +1181,13 @@ def norm_app(cname, args, kwargs=None):
             kw.pop("axis")
     if cname == "square" and len(args) == 1 and T.is_numeric(args[0]):
         return T.powi(args[0], 2)
+    if cname in ("max", "min") and len(args) == 1 and not kw and T.is_poly(args[0]) and len(args[0][1]) > 1:
+        # max(v + c) = max(v) + c for a per-set scalar c (shift equivariance)
+        vec, sca = {}, {}
+        for m, c in args[0][1]:
+            (sca if (m == () or all(is_scalar(b) for b, _e in m)) else vec)[m] = c
+        if sca and vec:
+            return T.add(("f", cname, (T._mk(vec),), ()), T._mk(sca))
     if cname == "logsumexp" and len(args) == 1:
         return lse(args[0], kw.get("axis"))
     if cname == "exp" and len(args) == 1 and not kw:
